@@ -663,9 +663,13 @@ func run(c *core.Ctx) {
 	type mk func(r *rand.Rand) deliverer
 	layers := []mk{
 		func(r *rand.Rand) deliverer { return newFrameDeliverer(r, frame.SessionData, alphaBoth, "e2e-regular") },
-		func(r *rand.Rand) deliverer { return newFrameDeliverer(r, frame.NetworkTraffic, alphaBoth, "e2e-traffic") },
+		func(r *rand.Rand) deliverer {
+			return newFrameDeliverer(r, frame.NetworkTraffic, alphaBoth, "e2e-traffic")
+		},
 		func(r *rand.Rand) deliverer { return newFrameDeliverer(r, frame.RouterCtrl, alphaBoth, "e2e-priority") },
-		func(r *rand.Rand) deliverer { return newFrameDeliverer(r, frame.SessionCtrl, alphaBoth, "e2e-sessionctrl") },
+		func(r *rand.Rand) deliverer {
+			return newFrameDeliverer(r, frame.SessionCtrl, alphaBoth, "e2e-sessionctrl")
+		},
 		func(r *rand.Rand) deliverer { return newLinkDeliverer(r, alphaBoth) },
 		func(r *rand.Rand) deliverer { return newSignedDeliverer(r, frame.RouterPing, 6, "signed-ping") },
 		func(r *rand.Rand) deliverer { return newSignedDeliverer(r, frame.RouterHopPing, 6, "signed-hop") },
